@@ -1,9 +1,9 @@
 #!/bin/sh
-# tools/regress_seeds.sh [pattern] — re-trial every kept seeded change (seeded/<name>/patch.diff, or patch.rebased.diff)
+# tools/regress_seeds.sh [pattern] (results: work/regress_seeds.<pid>.tsv, or $REGRESS_OUT) — re-trial every kept seeded change (seeded/<name>/patch.diff, or patch.rebased.diff)
 # against its own property's quick check; one line per seed in work/regress_seeds.tsv:
 #   <name> <property> <exit> <verdict: input|no-input|holds|noapply>
 cd /verif
-OUT=work/regress_seeds.tsv
+OUT=${REGRESS_OUT:-work/regress_seeds.$$.tsv}
 : > $OUT
 for d in seeded/${1:-*}; do
   n=$(basename $d); c=${n%%-*}
@@ -17,3 +17,4 @@ for d in seeded/${1:-*}; do
   echo "$n $c $rc $v" >> $OUT
 done
 echo REGRESS DONE >> $OUT
+echo "results in $OUT"
